@@ -43,10 +43,8 @@ def run_reference(cases, pad=None, chunk=60, workers=8, limit=None):
     followed by the sandbox's default reply for ever (the path the sandbox takes; used for the model tie only)."""
     os.makedirs(SCRATCH, exist_ok=True)
     jobs = [{"code": c["code"], "filename": c.get("filename", "answer.py"), "inputs": c.get("inputs", []),
-             "pad": pad, "limit": limit, "calls": [{"fn": k["fn"], "args": k.get("args", []), "kwargs": k.get("kwargs", {}),
-                                    **({"inputs": k["inputs"]} if "inputs" in k else {}),
-                                    **({"target": k["target"]} if "target" in k else {})}
-                                   for k in c.get("calls", [])] if pad is None else []} for c in cases]
+             "pad": pad, "limit": limit, "calls": [dict(k) for k in c.get("calls", [])] if pad is None else []}
+            for c in cases]
     chunks = [jobs[i:i + chunk] for i in range(0, len(jobs), chunk)]
 
     def work(args):
@@ -133,8 +131,32 @@ def sandbox_globals(data):
             continue
         if k in ref.FRESH_MAIN:
             continue
+        if k == "__annotations__" and not v:
+            continue
         out[k] = ref.describe(v)
     return out
+
+
+def student_env(data):
+    """What a grader's expression sees when it builds an argument from the student's own classes: the program's
+    globals (not what the sandbox put there) over the real builtins."""
+    env = {k: v for k, v in data.items() if k not in SANDBOX_OWN and not is_injected(v)}
+    env["__builtins__"] = BUILTINS
+    return env
+
+
+BUILTINS = __builtins__ if isinstance(__builtins__, dict) else __builtins__.__dict__
+
+
+def observe_run(sb):
+    res = {"out": sb.raw_output, "globals": sandbox_globals(sb.data)}
+    exc = sb.exception
+    if exc is None:
+        res["outcome"] = None
+    else:
+        loc = getattr(sb.feedback, "location", None) if sb.feedback is not None else None
+        res["outcome"] = [type(exc).__name__, getattr(loc, "line", None) if loc is not None else None]
+    return res
 
 
 def run_sandbox(case):
@@ -166,11 +188,36 @@ def run_sandbox(case):
     else:
         loc = getattr(sb.feedback, "location", None) if sb.feedback is not None else None
         res["outcome"] = [type(exc).__name__, getattr(loc, "line", None) if loc is not None else None]
+    hv = {}         # the grader's own variables (steps {"op": "let"}), alive over the whole history
     for c in case.get("calls", []):
-        env = {"__builtins__": __builtins__ if isinstance(__builtins__, dict) else __builtins__.__dict__}
+        op = c.get("op", "call")
+        if op == "let":
+            try:
+                exec(c["stmt"], student_env(sb.data), hv)
+                res["calls"].append({"op": "let", "result": ["let"]})
+            except BaseException as e:      # noqa
+                res["calls"].append({"op": "let", "result": ["harness", type(e).__name__]})
+            continue
+        if op == "rerun":
+            # the same process grades again (the same or another program), as a grader does for the next submission
+            try:
+                contextualize_report(Submission(files={fn: c.get("code", case["code"])}, main_file=fn))
+                sb = MAIN_REPORT["sandbox"]["sandbox"]
+                if api == "commands":
+                    commands.set_input(list(c.get("inputs", [])))
+                    commands.run()
+                else:
+                    sb.run(inputs=list(c.get("inputs", [])))
+            except BaseException as e:      # noqa
+                res["calls"].append({"op": "rerun", "result": ["escaped", type(e).__name__]})
+                continue
+            obs = observe_run(sb)
+            res["calls"].append(dict(obs, op="rerun", result=["rerun", obs["outcome"]]))
+            continue
+        env = student_env(sb.data) if c.get("scope") == "student" else {"__builtins__": BUILTINS}
         try:
-            args = [eval(a, dict(env)) for a in c.get("args", [])]
-            kwargs = {k: eval(a, dict(env)) for k, a in c.get("kwargs", {}).items()}
+            args = [eval(a, dict(env), hv) for a in c.get("args", [])]
+            kwargs = {k: eval(a, dict(env), hv) for k, a in c.get("kwargs", {}).items()}
         except Exception as e:      # noqa
             res["calls"].append({"result": ["harness", type(e).__name__]})
             continue
@@ -243,6 +290,25 @@ def compare_globals(rg, sg):
     return problems
 
 
+def compare_run(refres, sb):
+    """One execution of a program (not the first of a case: no exhausted-queue handling): outcome, text, globals."""
+    so, ro = sb["outcome"], refres["outcome"]
+    if so and ro and so[0] == ro[0] == "RecursionError":
+        so = ro = ["RecursionError", None]
+    if so != ro:
+        return ({"kind": "outcome", "plain": ro[0] if ro else None, "sandbox": so[0] if so else None},
+                "outcome %r in the sandbox, %r in plain CPython" % (so, ro))
+    if sb["out"] not in echo_variants(refres["events"]):
+        return {"kind": "output"}, "printed text differs: sandbox %r, plain %r" % (sb["out"][-80:],
+                                                                                  plain_text(refres["events"])[-80:])
+    gp = compare_globals(refres["globals"], sb["globals"])
+    if gp:
+        kind, name = gp[0]
+        return {"kind": kind}, "student globals differ: %s %r (plain %r, sandbox %r)" % (
+            kind, name, refres["globals"].get(name), sb["globals"].get(name))
+    return None
+
+
 def oracle(case, refres, sb):
     """None, or (signature, what).  `refres` is the traced unmodified run, `sb` the sandbox run."""
     if "harness_error" in refres:
@@ -290,8 +356,25 @@ def oracle(case, refres, sb):
     if sb.get("consumed") is not None and sb["consumed"] != consumed_plain:
         return {"kind": "inputs-consumed"}, "inputs consumed: sandbox %r, plain %r" % (sb["consumed"], consumed_plain)
     # call() vs calling the function directly
+    program_globals = refres["globals"]
     for i, (c, rc, sc) in enumerate(zip(case.get("calls", []), refres.get("calls", []), sb.get("calls", []))):
         if rc["result"][0] == "harness" or sc["result"][0] == "harness":
+            if rc["result"] != sc["result"]:
+                # the grader's own expression (an argument built from the student's classes) could be evaluated on one
+                # side only: the namespaces differ
+                return ({"kind": "grader-expression", "plain": rc["result"][0], "sandbox": sc["result"][0]},
+                        "step %d %r: %r in the sandbox, %r in plain CPython" % (i, c.get("stmt") or c.get("args"),
+                                                                                sc["result"], rc["result"]))
+            continue
+        if c.get("op") == "let":
+            continue
+        if c.get("op") == "rerun":
+            if sc["result"][0] == "escaped":
+                return {"kind": "escaped", "cls": sc["result"][1], "after": "rerun"}, "run() let %s escape" % sc["result"][1]
+            v = compare_run(rc, sc)
+            if v:
+                return dict(v[0], after="rerun"), "second run in the same process: " + v[1]
+            program_globals = rc["globals"]
             continue
         if rc["result"][0] == "nofn":
             continue        # not one of the program's functions (it stopped before defining it): outside the property
@@ -300,23 +383,66 @@ def oracle(case, refres, sb):
         if sc["result"][0] == "escaped":
             return {"kind": "call-escaped", "cls": sc["result"][1]}, "call() let %s escape" % sc["result"][1]
         if rc["result"] != sc["result"]:
-            return call_signature(case, c, rc, sc, refres["globals"]), "call %s(%s%s): sandbox %r, direct call %r" % (
-                c["fn"], ", ".join(c.get("args", [])),
+            return call_signature(case, c, rc, sc, program_globals), "call %d %s(%s%s): sandbox %r, direct call %r" % (
+                i, c["fn"], ", ".join(c.get("args", [])),
                 "".join(", %s=%s" % kv for kv in c.get("kwargs", {}).items()), sc["result"], rc["result"])
         if rc["result"][0] == "exc" and rc["result"][1] != "RecursionError" and rc.get("line") is not None \
                 and sc.get("line") != rc["line"]:
             # the exception was raised inside the program's own code: "the same exception" is the same kind of
             # exception at the same line of the program (a failure of the call expression itself - wrong arity,
             # a name that is not a function - has no line in the program and is not compared)
-            return (override_cause(c, refres["globals"]) or {"kind": "call-line"},
+            return (override_cause(c, program_globals) or {"kind": "call-line"},
                     "call %s(%s): %s located at line %r by the sandbox, raised at line %r when called directly" % (
                         c["fn"], ", ".join(c.get("args", []))[:80], rc["result"][1], sc.get("line"), rc["line"]))
         if rc.get("events") is not None and sc.get("out") is not None and not exhausted(rc["events"]) \
                 and sc["out"] not in echo_variants(rc["events"]):
-            return (override_cause(c, refres["globals"]) or {"kind": "call-output"},
+            return (override_cause(c, program_globals) or {"kind": "call-output"},
                     "call %s(%s): printed text differs: sandbox %r, direct call %r" % (
                         c["fn"], ", ".join(c.get("args", []))[:80], sc["out"][-80:], plain_text(rc["events"])[-80:]))
     return None
+
+
+GENERIC_KEYS = {"kind", "plain", "sandbox", "after", "cls"}
+
+
+def stream_signature(case, sig):
+    """The compile / history streams make one defect visible under dozens of (plain class, sandbox class) pairs:
+    their generic signatures are folded to kind + dimension (a signature that names a cause is left alone)."""
+    shape = (case.get("shape") or [""])[0]
+    if shape.startswith(("compile:", "history:")) and set(sig) <= GENERIC_KEYS:
+        out = {"kind": sig["kind"], "stream": ":".join(shape.split(":")[:2])}
+        if "after" in sig:
+            out["after"] = sig["after"]
+        return out
+    return sig
+
+
+def judge(case, refres, sb):
+    v = oracle(case, refres, sb)
+    return (stream_signature(case, v[0]), v[1]) if v else None
+
+
+def judge_alone(case, timeout=120):
+    """The verdict's signature in a fresh process (sandboxequiv_alone.py); None = quiet there; "?" = could not tell."""
+    os.makedirs(SCRATCH, exist_ok=True)
+    fd, path = tempfile.mkstemp(prefix="alone_", suffix=".json", dir=SCRATCH)
+    try:
+        with os.fdopen(fd, "w") as fh:
+            json.dump(case, fh)
+        env = dict(os.environ, PYTHONHASHSEED="0")
+        p = subprocess.run([PY, "-X", "utf8", "-W", "ignore", os.path.join(VERIF, "harness", "sandboxequiv_alone.py"), path],
+                           cwd=os.path.join(VERIF, "harness"), env=env, capture_output=True, text=True, timeout=timeout)
+        lines = [l for l in p.stdout.strip().split("\n") if l.strip()]
+        if p.returncode != 0 or not lines:
+            return "?"
+        return json.loads(lines[-1])
+    except Exception:       # noqa
+        return "?"
+    finally:
+        try:
+            os.unlink(path)
+        except OSError:
+            pass
 
 
 def arg_class(expr):
@@ -336,9 +462,15 @@ def override_cause(c, program_globals=()):
     return None
 
 
+NESTED_SIGNATURE = {"kind": "call", "cause": "subclass-instance-nested-in-literal"}
+
+
 def call_signature(case, c, rc, sc, program_globals=()):
     if override_cause(c, program_globals):
         return override_cause(c, program_globals)
+    if c.get("nested"):
+        # an instance of a student subclass of a builtin INSIDE a container argument (sandboxequiv_history.NESTED_GROUPS)
+        return dict(NESTED_SIGNATURE)
     if sc["result"] == ["exc", "KeyError"] and rc["result"][0] == "exc" and "KeyError" in rc.get("mro", []):
         return {"kind": "outcome", "cause": "keyerror-subclass-replaced"}
     classes = sorted({arg_class(a) for a in list(c.get("args", [])) + list(c.get("kwargs", {}).values())})
